@@ -10,6 +10,7 @@ import (
 	"github.com/failsafe-go/failsafe-go"
 	"github.com/failsafe-go/failsafe-go/bulkhead"
 	"github.com/failsafe-go/failsafe-go/ratelimiter"
+	"github.com/failsafe-go/failsafe-go/retrypolicy"
 	"github.com/failsafe-go/failsafe-go/timeout"
 
 	"verifharness/vk"
@@ -89,8 +90,12 @@ func c16Rejections(rep *vk.Report, idx int) {
 // belong to it alone, and each execution reports exactly once to the listeners of the executor it ran on.
 func c16ExecutorCopies(rep *vk.Report, idx int) {
 	r := vk.Rng(rep.Seed, "C16e", idx)
-	var sharedDone, sharedSucc, derivedDone atomic.Int64
-	shared := failsafe.NewExecutor[int]().OnDone(func(failsafe.ExecutionDoneEvent[int]) { sharedDone.Add(1) }).OnSuccess(func(failsafe.ExecutionDoneEvent[int]) { sharedSucc.Add(1) })
+	var sharedDone, sharedSucc, sharedFail, derivedDone atomic.Int64
+	// all three kinds of completion listener are registered on the original before WithContext: the copy inherits them
+	shared := failsafe.NewExecutor[int](retrypolicy.Builder[int]().WithMaxRetries(0).Build()).
+		OnDone(func(failsafe.ExecutionDoneEvent[int]) { sharedDone.Add(1) }).
+		OnSuccess(func(failsafe.ExecutionDoneEvent[int]) { sharedSucc.Add(1) }).
+		OnFailure(func(failsafe.ExecutionDoneEvent[int]) { sharedFail.Add(1) })
 	var ctx context.Context // nil: "no context to configure"
 	kind := vk.Pick(r, "nil", "background", "value")
 	switch kind {
@@ -101,11 +106,17 @@ func c16ExecutorCopies(rep *vk.Report, idx int) {
 	}
 	derived := shared.WithContext(ctx).OnDone(func(failsafe.ExecutionDoneEvent[int]) { derivedDone.Add(1) })
 	n1, n2 := 1+r.IntN(3), 1+r.IntN(3)
+	failures := 0
 	run := func(ex failsafe.Executor[int]) {
+		fn := func() (int, error) { return 1, nil }
+		if r.IntN(3) == 0 {
+			failures++
+			fn = func() (int, error) { return 0, errE1 } // the zero-retry policy gives up at once: a failed execution
+		}
 		if r.IntN(2) == 0 {
-			ex.Get(func() (int, error) { return 1, nil })
+			ex.Get(fn)
 		} else {
-			ex.GetAsync(func() (int, error) { return 1, nil }).Get()
+			ex.GetAsync(fn).Get()
 		}
 	}
 	for i := 0; i < n1; i++ {
@@ -115,8 +126,8 @@ func c16ExecutorCopies(rep *vk.Report, idx int) {
 		run(derived)
 	}
 	rep.Eval()
-	if sharedDone.Load() != int64(n1) || sharedSucc.Load() != int64(n1+n2) || derivedDone.Load() != int64(n2) {
-		rep.Violate(idx, "C16/executor-copy-listeners", fmt.Sprintf("WithContext(%s): %d executions on the original executor and %d on the derived one: original OnDone fired %d times (want %d), original OnSuccess (inherited by the copy) %d (want %d), derived OnDone %d (want %d)", kind, n1, n2, sharedDone.Load(), n1, sharedSucc.Load(), n1+n2, derivedDone.Load(), n2), map[string]any{"ctx": kind})
+	if sharedDone.Load() != int64(n1) || sharedSucc.Load() != int64(n1+n2-failures) || sharedFail.Load() != int64(failures) || derivedDone.Load() != int64(n2) {
+		rep.Violate(idx, "C16/executor-copy-listeners", fmt.Sprintf("WithContext(%s): %d executions on the original executor and %d on the derived one, %d of them failing: original OnDone fired %d times (want %d), original OnSuccess (inherited by the copy) %d (want %d), original OnFailure (inherited by the copy) %d (want %d), derived OnDone %d (want %d)", kind, n1, n2, failures, sharedDone.Load(), n1, sharedSucc.Load(), n1+n2-failures, sharedFail.Load(), failures, derivedDone.Load(), n2), map[string]any{"ctx": kind})
 		return
 	}
 	rep.Distinct(fmt.Sprintf("copies|%s|%d|%d", kind, n1, n2))
